@@ -45,7 +45,8 @@ def run(ctx, replay_ops=None):
         "totals and the state-proof / online-accounts / online-round-params verification hashes of a round are data of the history (read from the reference ledger's DB at that round), "
         "not recomputed by the model; one consensus version per history; catchpoint file generation is not part of the label model",
         "the commit transaction is atomic (SQLite); a crash is modelled between the transaction and each post-commit action, the crash image is taken from a callback that runs before the catchpoint tracker's",
-        "completeness (every catchpoint round of a compatible schedule gets a label) is not proved (label_complete_Statement); it is checked on every replica through the model's exact prediction",
+        "completeness (label_complete) assumes 0 < lookback, every effective commit covers at most one first-stage round, and tracking enabled in every lifetime; "
+        "it does not cover runs with tracking-disabled lifetimes (their skipped catchpoints are predicted exactly by the model on every replica)",
     ]
     proved = ctx.prove(["AlgoVerif.Props.C14"])
     ok, out = ctx.lean_build(["c1416"])
